@@ -224,7 +224,17 @@ def handle (toks : List String) : String :=
     match kvRatMat r "A", kvRatMat r "B", kvRat r "tol", kvNat r "maxit" with
     | some A, some B, some tol, some mi =>
       if isSq A && isSq B && A.length == B.length then
-        lyapShow showRatM showApprox (lyapDoubling tol mi (matOf A) (matOf B))
+        let out := lyapDoubling tol mi (matOf A) (matOf B)
+        -- exact residual of the returned X and max absolute row sum of A (for the PSD-B bound
+        -- `lyap_psd_return_spec`: res ≤ tol · rowsum²)
+        let extra := match out with
+          | .ok X _ _ =>
+            let Am : M Rat := matOf A
+            let res := maxAbs gabs (madd (msub (mmul (mmul Am X) (mT Am)) X) (matOf B))
+            let rs := (A.map fun r => r.foldl (fun acc x => acc + gabs x) (0 : Rat)).foldl (fun a b => if a < b then b else a) 0
+            s!" res={showApprox res} rowsum={showRat rs}"
+          | _ => ""
+        lyapShow showRatM showApprox out ++ extra
       else "bad-op"
     | _, _, _, _ => "bad-op"
   | "lyapf" :: r =>
